@@ -77,7 +77,7 @@ def one_case(hbin, runner, case, showknown=False):
 
 
 def case_string(case):
-    k = {"S": 1, "P": 2, "Q": 3, "M": 5}.get(case[:1], 1)
+    k = {"S": 1, "P": 2, "Q": 3, "M": 5, "T": 2, "U": 5}.get(case[:1], 1)
     return case.split(":", k)[k]
 
 
@@ -192,7 +192,7 @@ def run(tier, seed, replay=None):
         res.violation("pest disagrees with the line/column specification on case %s (S/P/Q/M : offsets : string)" % small,
                       {"theorem_or_correspondence": "C10 oracle: impl vs extracted Pos.Spec", "case": small, "impl": d["impl"], "spec": d["expected"],
                        "minimised_from": worst["case"], "other_failing_cases": [m["case"] for m in spec_m[:10]],
-                       "legend": "P:<offset>:<string>, Q:<start>:<end>:<string>, S:<string>, M:<a>:<b>:<c>:<d>:<string>; \\n \\r \\t escaped"})
+                       "legend": "P:<offset>:<string>, Q:<start>:<end>:<string>, S:<string>, M:<a>:<b>:<c>:<d>:<string>, T:<tree s-e[children],..>:<string>, U:<a>:<c>:<d>:<b>:<string>; \\n \\r \\t escaped"})
     elif model_m:
         worst = min(model_m, key=lambda m: (len(m["case"]), m["case"]))
         small = minimise(hbin, runner, worst["case"], "model")
@@ -227,7 +227,9 @@ def run(tier, seed, replay=None):
         "evaluations": stats.get("evaluations", 0),
         "distinct_nontrivial": stats.get("distinct_nontrivial", 0),
         "rule": "every string of length <= %d over {a, e-acute (2 bytes), emoji (4 bytes), LF, CR, TAB}: all byte offsets for Position::new/Span::new (length <= 4), "
-                "every boundary offset (P) and every ordered pair of boundary offsets (Q), all quadruples for merge_spans (length <= 2); plus random strings of "
+                "every boundary offset (P) and every ordered pair of boundary offsets (Q), all quadruples for merge_spans (length <= 2), PairsBuilder trees that are NOT in source order / whose children start after or reach past their parents "
+                "(per boundary x: `x-x,0-0` and `0-0[x-len]`, plus 2 random trees of 1-9 nodes per string; Pair::line_col of every pair, walked and flattened) and real nested parses "
+                "through pest::state whose last token ends before the end of the input (3 per string); plus random strings of "
                 "6-40 chars in four profiles (many short lines so that line numbers reach two digits, CR/CRLF-heavy, tabs+multi-byte, uniform) with all offsets and "
                 "a sample of pairs. Non-trivial = the text before the (end) offset contains a LF, CR, TAB or multi-byte char; distinct by case text." % exhaustive_len,
         "exhaustive": True,
